@@ -406,10 +406,43 @@ def generate_emit():
             "true" if (i_upd is not None and i_ansi is not None and i_ansi < i_upd) else "false")
         body += "def levelUpdateCalls : Nat := %d\n" % nupd
         body += "def levelAnsiSource : List Char := %s\n" % lean_chars(ansi_src or "?")
+
+        # (d) Colorizer._parse_with_formatting / _parse_without_formatting: which text is fed to the markup parser
+        # how – the literal text of the string with `raw=recursive` (so: raw inside format specs), values and
+        # re-serialised fields with `raw=True`; the format spec is parsed by a call with `recursive=True`
+        ctree, _ = parse_module("_colorizer.py")
+        for fname, lean in (("_parse_with_formatting", "msg"), ("_parse_without_formatting", "fmt")):
+            raw_fn = find_func(ctree, fname, cls="Colorizer")
+            kwdef = {a.arg: ast.unparse(d) for a, d in zip(raw_fn.args.kwonlyargs, raw_fn.args.kw_defaults) if d is not None}
+            pf = _normalise(raw_fn, [a.arg for a in raw_fn.args.args])
+            loops = [n for n in ast.walk(pf) if isinstance(n, ast.For) and ast.unparse(n.iter).endswith(".parse(%s)" % pf.args.args[0].arg)]
+            if len(loops) != 1 or not isinstance(loops[0].target, ast.Tuple) or not isinstance(loops[0].target.elts[0], ast.Name):
+                raise Unsupported("%s: loop over Formatter.parse" % fname)
+            lit = loops[0].target.elts[0].id
+            feeds = []
+            for node in ast.walk(loops[0]):
+                if isinstance(node, ast.Call) and isinstance(node.func, ast.Attribute) and node.func.attr == "feed" and node.args:
+                    if node.keywords and not (len(node.keywords) == 1 and node.keywords[0].arg == "raw"):
+                        raise Unsupported("%s: feed() keywords" % fname)
+                    rawsrc = ast.unparse(node.keywords[0].value) if node.keywords else "absent"
+                    kind = "literal" if (isinstance(node.args[0], ast.Name) and node.args[0].id == lit) else "value"
+                    feeds.append((node.lineno, kind, rawsrc))
+            feeds.sort()
+            rec = []
+            for node in ast.walk(loops[0]):
+                if isinstance(node, ast.Call) and ast.unparse(node.func).split(".")[-1] == fname:
+                    kw = {k.arg: ast.unparse(k.value) for k in node.keywords}
+                    rec.append(kw.get("recursive", "absent"))
+            body += "\n/-- `%s`: (what is fed, its `raw=` argument) in source order; the `recursive=` argument of the\n" % fname
+            body += "call that parses a format spec; the default of `recursive` -/\n"
+            body += "def %sFeeds : List (List Char × List Char) := [%s]\n" % (
+                lean, ", ".join("(%s, %s)" % (lean_chars(k), lean_chars(r)) for _l, k, r in feeds))
+            body += "def %sSpecCalls : List (List Char) := [%s]\n" % (lean, ", ".join(lean_chars(r) for r in rec))
+            body += "def %sRecursiveDefault : List Char := %s\n" % (lean, lean_chars(kwdef.get("recursive", "absent")))
     except (Unsupported, SyntaxError, KeyError, AttributeError, IndexError, OSError) as e:
         errors.append("%s: %s" % (type(e).__name__, e))
     body += "\nend Markup.GenEmit\n"
-    return emit("MarkupEmit", body, ["loguru/_handler.py", "loguru/_logger.py"], errors)
+    return emit("MarkupEmit", body, ["loguru/_handler.py", "loguru/_logger.py", "loguru/_colorizer.py"], errors)
 
 
 _generate_tables = generate
